@@ -518,9 +518,12 @@ func runSchedCase(c *kit.Ctx, id string, kind string) {
 	var results []sessResult
 	v := &vctx{c: c, w: w}
 	v.wit = func() interface{} {
-		tl := trace
-		if len(tl) > 120 {
-			tl = tl[len(tl)-120:]
+		tl, keep := trace, 120
+		if w.Alias {
+			keep = 30
+		}
+		if len(tl) > keep {
+			tl = tl[len(tl)-keep:]
 		}
 		return map[string]interface{}{"world": describe(w), "configs": cfgs, "sessions": results, "trace_tail": tl}
 	}
@@ -602,6 +605,7 @@ func runSchedCase(c *kit.Ctx, id string, kind string) {
 				return true
 			case res.Stuck:
 				c.Count("sessions_stuck", 1)
+				stuckSeen++
 				return false
 			default:
 				c.Count("sessions_interrupted", 1)
@@ -688,6 +692,7 @@ func runSchedCase(c *kit.Ctx, id string, kind string) {
 				}
 				if res.Stuck {
 					c.Count("sessions_stuck", 1)
+					stuckSeen++
 					stuck = true
 					break
 				}
